@@ -97,7 +97,7 @@ def dumps_key(o):
 
 def _make_operator(cd):
     dom = make_domain(cd)
-    c = pad_const_py(cd['c'], cd['dtype'])
+    c = pad_const_py(cd['c'], cd.get('rdtype') or cd['dtype'])     # a value of the RANGE data type
     alt = cd.get('style') == 'alt'
     mode = cd['mode'].upper() if alt else cd['mode']
     if alt:
@@ -164,50 +164,119 @@ def geometry(op, Dg):
             'offs': [int(o) for o in op.offset], 'axes': [int(a) for a in op.axes]}
 
 
+class _ArrayIf(object):
+    """An object that is not an array but exposes one through __array__ - the SHARED buffer, not a copy."""
+
+    def __init__(self, a):
+        self.a = a
+
+    def __array__(self, dtype=None, copy=None):
+        if dtype is None or np.dtype(dtype) == self.a.dtype:
+            return self.a
+        return self.a.astype(dtype)
+
+
+class _SubArray(np.ndarray):
+    pass
+
+
+KINDS = ('ndarray', 'list', 'tensor', 'discr', 'subclass', 'matrix', 'memoryview', 'arrayif', 'strided')
+
+
+def kind_ok(kind, shape, dtype):
+    if kind == 'matrix':
+        return len(shape) == 2
+    return True
+
+
+def wrap_input(arr, kind, dtype):
+    """The array-like handed to resize_array and a function that reads back what the caller's object holds now."""
+    if kind == 'list':
+        lst = arr.tolist()
+        return lst, lambda: np.array(lst, dtype=dtype).reshape(arr.shape)
+    if kind == 'tensor':
+        el = odl.tensor_space(arr.shape, dtype=dtype).element(arr)
+        return el, lambda: np.array(el.asarray())
+    if kind == 'discr':
+        el = odl.uniform_discr([0.0] * arr.ndim, [float(n) for n in arr.shape], arr.shape, dtype=dtype).element(arr)
+        return el, lambda: np.array(el.asarray())
+    if kind == 'subclass':
+        return arr.view(_SubArray), lambda: np.array(arr)
+    if kind == 'matrix':
+        return np.asmatrix(arr), lambda: np.array(arr)
+    if kind == 'memoryview':
+        arr = np.ascontiguousarray(arr)
+        return memoryview(arr), lambda: np.array(arr)
+    if kind == 'arrayif':
+        return _ArrayIf(arr), lambda: np.array(arr)
+    if kind == 'strided':
+        big = np.zeros(arr.shape[:-1] + (2 * arr.shape[-1],), dtype=arr.dtype)
+        v = big[..., ::2]
+        v[...] = arr
+        return v, lambda: np.array(v)
+    return arr, lambda: np.array(arr)
+
+
+def dtclass(dtype):
+    dt = np.dtype(dtype)
+    if dt.kind in 'iu':
+        return 'int'
+    return {'float32': 'f32', 'float64': 'f64', 'complex64': 'c64', 'complex128': 'c128'}[dt.name]
+
+
+def garbage(shape, dtype, order='C'):
+    dt = np.dtype(dtype)
+    return np.full(tuple(shape), -7777 if dt.kind in 'iu' else np.nan, dtype=dt, order=order)
+
+
 def execute(cd):
-    """Perform the call on real ODL code.  Returns (y_flat, err, notes, info)."""
+    """Perform the call on real ODL code.  Returns (y_flat, err, notes, info); what else was observed (contents of the
+    caller's input afterwards, op.is_linear) is stored in cd['_obs'] for the event."""
     notes, info = [], {}
     dtype = cd['dtype']
     D = cd['D']
+    obs = cd['_obs'] = {}
     try:
         if cd['api'] == 'resize_array':
-            arr = to_array(cd['x'], tuple(cd['dom']), dtype, cd.get('order', 'C'))
-            before = arr.copy()
+            kind = cd.get('kind', 'ndarray')
+            arr = to_array(cd['x'], tuple(cd['dom']), dtype, cd.get('order', 'C') if kind == 'ndarray' else 'C')
+            inp, peek = wrap_input(arr, kind, dtype)
             c = pad_const_py(cd['c'], dtype)
             kw = {}
             if cd.get('out') == 'given':
-                dt = np.dtype(dtype)
-                fill = -7777 if dt.kind in 'iu' else np.nan
-                out = np.full(tuple(cd['ran']), fill, dtype=dt, order=cd.get('order', 'C'))
-                kw['out'] = out
-            if cd.get('style') == 'arrays':
-                a_shp, a_off, a_c = np.array(cd['ran'], dtype=int), np.array(cd['offs'], dtype=int), np.array(c)
-                keep = (a_shp.copy(), a_off.copy(), a_c.copy())
-                res = resize_array(arr, a_shp, offset=a_off, pad_mode=cd['mode'], pad_const=a_c, direction=cd['dir'], **kw)
-                if not (np.array_equal(a_shp, keep[0]) and np.array_equal(a_off, keep[1]) and np.array_equal(a_c, keep[2])):
-                    notes.append('argument-modified')
-            elif cd.get('style') == 'alt':
-                # the other accepted spellings of the same call: nested list input, list shape, one int offset,
-                # upper-case option strings, 0-d array pad constant
-                offs = list(cd['offs'])
-                offs = int(offs[0]) if all(o == offs[0] for o in offs) else tuple(offs)
-                inp = arr.tolist() if ('out' not in kw and str(np.dtype(dtype)) in ('int64', 'float64', 'complex128')
-                                       and arr.size > 0) else arr
-                res = resize_array(inp, list(cd['ran']), offset=offs, pad_mode=cd['mode'].upper(), pad_const=np.array(c),
-                                   direction=cd['dir'].upper(), **kw)
-            else:
-                res = resize_array(arr, tuple(cd['ran']), offset=list(cd['offs']), pad_mode=cd['mode'], pad_const=c,
-                                   direction=cd['dir'], **kw)
+                kw['out'] = garbage(cd['ran'], dtype, cd.get('order', 'C'))
+            try:
+                if cd.get('style') == 'arrays':
+                    a_shp, a_off, a_c = np.array(cd['ran'], dtype=int), np.array(cd['offs'], dtype=int), np.array(c)
+                    keep = (a_shp.copy(), a_off.copy(), a_c.copy())
+                    res = resize_array(inp, a_shp, offset=a_off, pad_mode=cd['mode'], pad_const=a_c, direction=cd['dir'], **kw)
+                    if not (np.array_equal(a_shp, keep[0]) and np.array_equal(a_off, keep[1]) and np.array_equal(a_c, keep[2])):
+                        notes.append('argument-modified')
+                elif cd.get('style') == 'alt':
+                    # other accepted spellings of the same call: list shape, one int offset, upper-case option strings,
+                    # 0-d array pad constant
+                    offs = list(cd['offs'])
+                    offs = int(offs[0]) if all(o == offs[0] for o in offs) else tuple(offs)
+                    res = resize_array(inp, list(cd['ran']), offset=offs, pad_mode=cd['mode'].upper(), pad_const=np.array(c),
+                                       direction=cd['dir'].upper(), **kw)
+                else:
+                    res = resize_array(inp, tuple(cd['ran']), offset=list(cd['offs']), pad_mode=cd['mode'], pad_const=c,
+                                       direction=cd['dir'], **kw)
+            finally:
+                after = peek()
+                obs['xafter'] = snap_block(after, D, dtype)
+                if not np.array_equal(after, arr):
+                    notes.append('input-modified')
             if 'out' in kw and res is not kw['out']:
                 notes.append('out-not-returned')
-            if not np.array_equal(arr, before):
-                notes.append('input-modified')
-            if res.dtype != np.dtype(dtype):
+            rdt = np.dtype(dtype) if (kind != 'list' or 'out' in kw) else res.dtype
+            if res.dtype != rdt:
                 notes.append('dtype-changed:%s' % res.dtype)
             if tuple(res.shape) != tuple(cd['ran']):
                 notes.append('shape:%s' % (res.shape,))
-            return snap_block(res, D, dtype), '', notes, info
+            return snap_block(np.asarray(res), D, dtype), '', notes, info
         op = make_operator(cd)
+        obs['linear'] = 1 if op.is_linear else 0
         if 'Dg' in cd:
             info['geometry'] = geometry(op, cd['Dg'])
         info['offs'] = [int(o) for o in op.offset]
@@ -221,19 +290,22 @@ def execute(cd):
         else:
             T = op
         shape = tuple(cd['ran']) if v in ('adjoint', 'inverse') else tuple(cd['dom'])
-        x = T.domain.element(to_array(cd['x'], shape, dtype))
+        x = T.domain.element(to_array(cd['x'], shape, T.domain.dtype))
         xb = x.asarray().copy()
-        if cd.get('out') == 'given':
-            out = T.range.element(np.full(T.range.shape, np.nan))
-            res = T(x, out=out)
-            if res is not out:
-                notes.append('out-not-returned')
-        else:
-            res = T(x)
+        try:
+            if cd.get('out') == 'given':
+                out = T.range.element(garbage(T.range.shape, T.range.dtype))
+                res = T(x, out=out)
+                if res is not out:
+                    notes.append('out-not-returned')
+            else:
+                res = T(x)
+        finally:
+            obs['xafter'] = snap_block(x.asarray(), D, T.domain.dtype)
+            if not np.array_equal(xb, x.asarray()):
+                notes.append('input-modified')
         if res not in T.range:
             notes.append('result-not-in-range')
-        if not np.array_equal(xb, x.asarray()):
-            notes.append('input-modified')
         if cd.get('history'):
             # overwrite what the first call returned and evaluate again: the second result is the one observed
             res.asarray()[...] = 31
@@ -241,15 +313,26 @@ def execute(cd):
             if res2 is res:
                 notes.append('result-object-reused')
             res = res2
-        return snap_block(res.asarray(), D, cd.get('rdtype') or dtype if v in ('call', 'derivative') else dtype), '', notes, info
+        return snap_block(res.asarray(), D, T.range.dtype), '', notes, info
     except Exception as e:
         return [], type(e).__name__, notes + [str(e)[:100]], info
 
 
+def result_dtype(cd):
+    """data type of the result of the call (= of the fill): resize_array keeps the input's, the operator (and its
+    derivative) produce the range's, adjoint / inverse the domain's"""
+    if cd['api'] == 'resize_array' or cd['variant'] in ('adjoint', 'inverse'):
+        return cd['dtype']
+    return cd.get('rdtype') or cd['dtype']
+
+
 def event_of(cd, y, err, eid, offs=None):
+    obs = cd.get('_obs') or {}
     return {'id': eid, 'kind': 'resize', 'variant': cd['variant'], 'dom': list(cd['dom']), 'ran': list(cd['ran']),
             'offs': list(offs if offs is not None else cd['offs']), 'mode': cd['mode'], 'dir': cd.get('dir', 'forward'),
-            'c': cd['c'], 'x': cd['x'], 'y': y, 'err': err}
+            'c': cd['c'], 'x': cd['x'], 'y': y, 'err': err,
+            'xafter': obs.get('xafter', cd['x']), 'linear': obs.get('linear', -1),
+            'rdt': dtclass(result_dtype(cd)), 'odt': dtclass(cd.get('rdtype') or cd['dtype'])}
 
 
 def adjoint_identity(cd, x, y, Dip):
